@@ -1,5 +1,6 @@
 (* C09, judge of the free-running soak: the final answers of
-   RibModel.rib_run (concat progs) - the writers one after the other - which by
+   RibModel.rib_run (RibConc.effective (concat progs)) - the writers one after
+   the other, requests for an unsupported family being no-ops - which by
    Props_C09.C09_interleaving_equals_sequential is what EVERY interleaving of
    the same writers must end with. Case = the `p` items of engine c09 (schedule
    items are ignored); prints `F` and the final answers like eng_c09. *)
@@ -14,7 +15,8 @@ let run_case (line : string) : string =
   let pfxs = ref [] in
   Stdlib.List.iter (fun it -> match it with
       | "p" :: t :: rest ->
-          let u = Eng_c09.update_of rest in
+          (* RibConc.effective = map eff_update, applied here item by item (the extracted map is not tail-recursive; logs have 10^5..10^6 Updates) *)
+          let u = RibConc.eff_update (Eng_c09.update_of rest) in
           pfxs := Stdlib.List.rev_append (Eng_c09.prefixes_of u) !pfxs;
           let t = int_of_string t in progs.(t) <- u :: progs.(t)
       | ["q"; _; p] -> pfxs := int_of_string p :: !pfxs
